@@ -228,3 +228,178 @@ def snapshots_of(line):
     for m in re.finditer(r" \|o(\d)=(\{.*?\})(?= \|o\d=|$)", line):
         out[int(m.group(1))] = m.group(2)
     return out
+
+
+# ----------------------------------------------------------------------------------------
+# shared check logic for the properties that live in options.c (C14 C15 C18 C09-API)
+
+def caps_line(alg):
+    return "caps %d %s %s" % (alg["num"], ",".join(map(str, alg["ineq"])), ",".join(map(str, alg["eq"])))
+
+
+def strip_err(snap):
+    return re.sub(r" err=\d", "", snap)
+
+
+def strip_data(snap):
+    return re.sub(r"/\d+\[", "[", re.sub(r"\bd=\d+|:d\d+:", "D", re.sub(r" munge=\d\d", "", snap)))
+
+
+def head_of(line):
+    return line.split(" ev=")[0]
+
+
+def view_part(line):
+    """return code + snapshots with allocation bookkeeping removed (what getters can see)"""
+    h = head_of(line)
+    snaps = snapshots_of(line)
+    return h + "".join(" |o%d=%s" % (k, re.sub(r"/\d+\[", "[", v)) for k, v in sorted(snaps.items()))
+
+
+def classify_disagreement(x, y):
+    """visible (return code / getter-visible state) or internal (events, allocation bookkeeping)"""
+    if x.startswith(("CRASH", "<missing>")) or y.startswith("<missing>"):
+        return "crash"
+    if view_part(x) != view_part(y):
+        return "visible"
+    return "internal"
+
+
+def monitor_history(prop, ops, lines, ctx, hid):
+    """property monitors on the REAL library's output for one history.  ops: op lines (no 'history');
+    lines: impl output lines for them (+ 'end' line, possibly CRASH)."""
+    prev = {}
+    slot_ident = {}
+    given = {}          # data id -> count of MD events (C15 ledger)
+    hooks_on = set()
+    oracle_armed = False
+    for k, op in enumerate(ops):
+        if k >= len(lines):
+            break
+        line = lines[k]
+        t = op.split()
+        if line.startswith("CRASH"):
+            sig = {"api": t[0], "cause": "crash", "null": "null" in t[1:3]}
+            ctx.violation(sig, "%s crashed (%s)" % (t[0], line), {"stream": "api", "ops": ops[:k + 1]})
+            return
+        if t[0] in ("oracle", "mcfail"):
+            oracle_armed = True
+            continue
+        head = head_of(line)
+        evs = events_of(line)
+        snaps = snapshots_of(line)
+        ret = head.split(" ")[0]
+        if "BADFREE" in evs:
+            ctx.violation({"api": t[0], "cause": "bad free"}, "%s freed a block that is not live (double free)" % t[0],
+                          {"stream": "api", "ops": ops[:k + 1]})
+            return
+        # --- C14 / C18: a failing call leaves every object as it was
+        failed = ret.lstrip("-").isdigit() and int(ret) < 0 or ret == "null"
+        if failed and t[0] not in ("copy", "create"):
+            for s_, v in prev.items():
+                if s_ in snaps and strip_err(snaps[s_]) != strip_err(v) and prop in ("C14", "C18", "C09"):
+                    ctx.violation({"api": t[0], "cause": "failed call modified object", "oom": oracle_armed},
+                                  "%s returned %s but changed object o%d" % (t[0], ret, s_),
+                                  {"stream": "api", "ops": ops[:k + 1], "before": v[:300], "after": snaps[s_][:300]})
+                    return
+        if prop == "C18" and oracle_armed:
+            nofault_ok = ret in ("null", "-3") or "X" not in evs and not any(e.startswith("RX") for e in evs)
+            if not nofault_ok and not (ret.lstrip("-").isdigit() and int(ret) < 0):
+                # an allocation failed but the call reports success: acceptable only for best-effort diagnostics
+                ctx.violation({"api": t[0], "cause": "allocation failure not reported"},
+                              "%s: an allocation failed but the call returned %s" % (t[0], ret),
+                              {"stream": "api", "ops": ops[:k + 1]})
+                return
+        # --- C14: algorithm and dimension never change; a copy equals its source
+        for s_, v in snaps.items():
+            m = re.match(r"\{alg=(-?\d+) n=(\d+)", v)
+            if m:
+                if s_ in prev and s_ in slot_ident and slot_ident[s_] != m.groups() and t[0] not in ("create", "copy", "destroy"):
+                    ctx.violation({"api": t[0], "cause": "algorithm or dimension changed"}, "%s changed algorithm/dimension of o%d" % (t[0], s_),
+                                  {"stream": "api", "ops": ops[:k + 1]})
+                    return
+                slot_ident[s_] = m.groups()
+        if t[0] == "copy" and ret == "ptr" and prop == "C14":
+            src, dst = int(t[1][1:]) if t[1] != "null" else None, int(t[2][1:])
+            if src in snaps and dst in snaps and strip_data(strip_err(snaps[src])) != strip_data(strip_err(snaps[dst])):
+                ctx.violation({"api": "nlopt_copy", "cause": "copy differs from source"}, "nlopt_copy: the copy differs from its source in a getter-visible field",
+                              {"stream": "api", "ops": ops[:k + 1], "src": snaps[src][:400], "dst": snaps[dst][:400]})
+                return
+        # --- C15 ledger
+        if prop == "C15":
+            for e in evs:
+                if e.startswith("MD"):
+                    d = int(e[2:])
+                    if d:
+                        given[d] = given.get(d, 0) + 1
+                        if given[d] > 1:
+                            ctx.violation({"api": t[0], "cause": "data released twice"}, "user data d%d passed to the destroy hook twice" % d,
+                                          {"stream": "api", "ops": ops[:k + 1]})
+                            return
+                elif e.startswith("MC"):
+                    a, b = e[2:].split(">")
+                    given.setdefault(int(b), 0)
+        oracle_armed = False
+        prev = snaps
+    endl = lines[len(ops)] if len(lines) > len(ops) else ""
+    if endl.startswith("CRASH"):
+        ctx.violation({"api": "nlopt_destroy", "cause": "crash"}, "crash while destroying the objects of the history", {"stream": "api", "ops": ops})
+        return
+    if endl.startswith("end"):
+        m = re.match(r"end leaks=(\d+)", endl)
+        if m and int(m.group(1)) and prop in ("C18", "C14", "C15"):
+            ctx.violation({"api": "history", "cause": "leak"}, "%s library blocks still allocated after every object was destroyed" % m.group(1),
+                          {"stream": "api", "ops": ops})
+            return
+        if "BADFREE" in endl:
+            ctx.violation({"api": "nlopt_destroy", "cause": "bad free"}, "double free while destroying", {"stream": "api", "ops": ops})
+            return
+        if prop == "C15":
+            for e in events_of(endl):
+                if e.startswith("MD") and int(e[2:]):
+                    d = int(e[2:])
+                    given[d] = given.get(d, 0) + 1
+            return given
+    return given if prop == "C15" else None
+
+
+def run_histories(ctx, bdir, alg, histories, prop, name):
+    """histories: list of op lists.  Runs both sides, records correspondence, runs monitors."""
+    text = "".join("history %d\n%s\n" % (i, "\n".join(h)) for i, h in enumerate(histories))
+    impl, model = run_both(bdir, text, caps_line(alg))
+    hi, hm = split_histories(impl), split_histories(model)
+    vis = internal = 0
+    first = None
+    for idx, (a, b) in enumerate(zip(hi, hm)):
+        for k in range(1, max(len(a), len(b))):
+            x = canon_nan(a[k]) if k < len(a) else "<missing>"
+            y = canon_nan(b[k]) if k < len(b) else "<missing>"
+            if x != y:
+                kind = classify_disagreement(x, y)
+                if kind == "internal":
+                    internal += 1
+                else:
+                    vis += 1
+                if first is None:
+                    first = (idx, k, x, y, kind)
+                break
+    ctx.corr[name] = {"histories": len(histories), "ops": sum(len(h) for h in histories),
+                      "disagreements_visible": vis, "disagreements_internal": internal}
+    if first:
+        idx, k, x, y, kind = first
+        ops = histories[idx][:k]
+        ctx.broke("correspondence api (%s): model vs options.c" % name,
+                  "history %d op %d (%s) [%s]\n impl : %s\n model: %s" % (idx, k, ops[-1] if ops else "?", kind, x[:700], y[:700]))
+        ctx.cov.setdefault("first_disagreement", {"ops": ops[-40:], "impl": x[:600], "model": y[:600], "kind": kind})
+        if kind in ("visible", "crash") and not x.startswith("CRASH"):
+            # the proved model says what the getters must show: a visible difference is a failing history
+            ctx.violation({"api": ops[-1].split()[0] if ops else "?", "cause": "getter-visible state differs from the specification model"},
+                          "after %s the object state / return value differs from the verified model" % (ops[-1] if ops else "?"),
+                          {"stream": "api", "ops": ops, "impl": x[:600], "model": y[:600]})
+    # monitors on the real output
+    for idx, h in enumerate(histories):
+        if idx < len(hi):
+            monitor_history(prop, h, hi[idx][1:], ctx, idx)
+        for op in h:
+            ctx.case(op, nontrivial=not op.startswith(("get_", "nth_")))
+    return hi
